@@ -567,6 +567,27 @@ def _auth_shape(ctx, r6, rr):
                 r6.ok('eq-helper|%s' % nm.split('::')[-1], loc=rr.loc(b), detail='helper compares lengths / full equality')
             else:
                 r6.bad('eq-helper|%s' % nm.split('::')[-1], 'token comparison helper %s does not establish full equality: %s' % (nm, why), loc=rr.loc(b))
+    # a comparison helper that is new against the baseline was spliced in by the virtual inliner: it is judged as the
+    # unit it is in the source, and the test of its result is the permit
+    extra_permits = set()
+    spliced_eq = False
+    for sp in rr.r.get('spliced', []):
+        hrec = getattr(ctx.fx, 'dropped_helpers', {}).get(sp['helper']) or ctx.fx.fns.get(sp['helper'])
+        if hrec is None or hrec['locals'][0] != 'bool' or hrec['argc'] < 2 or sp['dest'][1]:
+            continue
+        xp = lambda n: re.search(r'Mutex(::)?<.*>::lock$|Option(::)?<.*>::and_then$|Result(::)?<.*>::ok$', n) is not None
+        srcs = set()
+        for a in sp['args']:
+            srcs |= operand_origins(rr, a, extra_pass=xp)
+        if any(o[0] == 'field' and o[1].endswith('ControlRequest.auth') for o in srcs) and any(o[0] == 'field' and o[1].endswith('ControlState.auth_token') for o in srcs):
+            why = _helper_full_equality(ctx, sp['helper'])
+            short = sp['helper'].split('::')[-1]
+            if why is None:
+                extra_permits |= test_edges(rr, {sp['dest'][0]: ('bool', True)})[0]
+                spliced_eq = True
+                r6.ok('eq-helper|%s' % short, loc=rr.loc(sp['block']), detail='helper compares lengths / full equality')
+            else:
+                r6.bad('eq-helper|%s' % short, 'token comparison helper %s does not establish full equality: %s' % (sp['helper'], why), loc=rr.loc(sp['block']))
     # comparison wrapped in a closure: `provided.is_some_and(|t| <eq or helper>(t, expected))`
     for b, nm, t in rr.calls(lambda n: re.search(r'Option(::)?<.*>::(is_some_and|map_or|is_none_or)$', n) is not None):
         xp = lambda n: re.search(r'Mutex(::)?<.*>::lock$|Option(::)?<.*>::and_then$|Result(::)?<.*>::ok$', n) is not None
@@ -587,6 +608,11 @@ def _auth_shape(ctx, r6, rr):
         cf = F(ctx.fx.fns[clo])
         inner = cf.calls(lambda n: re.search(r'PartialEq(<.*>)?>::eq$|ConstantTimeEq>::ct_eq$', n) is not None or (n in ctx.fx.fns and ctx.fx.fns[n]['locals'][0] == 'bool'))
         if len(inner) != 1:
+            # the comparison is written out in the closure (or a new helper was spliced into it): the closure
+            # itself is judged as the comparison helper, its parameters being the captured token and the argument
+            if _helper_full_equality(ctx, clo) is None:
+                r6.ok('eq-helper|closure', loc=cf.loc(0), detail='closure compares lengths / full equality')
+                eq_calls.append((b, nm, {'a': [t['a'][0], ['k', 'str', 'captured ControlState.auth_token']], 'd': t['d'], '_closure_eq': True}))
             continue
         ib, inm, it = inner[0]
         if inm in ctx.fx.fns:
@@ -597,7 +623,7 @@ def _auth_shape(ctx, r6, rr):
             r6.ok('eq-helper|%s' % inm.split('::')[-1], loc=cf.loc(ib), detail='helper compares lengths / full equality')
         eq_calls.append((b, nm, {'a': [t['a'][0], ['k', 'str', 'captured ControlState.auth_token']], 'd': t['d'], '_closure_eq': True}))
     vw_calls = rr.calls(lambda n: n.endswith('PairingStore::validate_with_role'))
-    permits = set()
+    permits = set(extra_permits)
     for b, nm, t in eq_calls:
         p, n_, _ = call_result_edges(rr, b)
         permits |= p
@@ -630,7 +656,7 @@ def _auth_shape(ctx, r6, rr):
     else:
         r6.bad('fallthrough-err', 'no Err(unauthorized) fallthrough in the token-configured region', loc=rr.loc(0))
     # equality compares the provided token with the expected one
-    okeq = False
+    okeq = spliced_eq
     for b, nm, t in eq_calls:
         if t.get('_closure_eq'):
             okeq = True
@@ -654,7 +680,7 @@ def _helper_full_equality(ctx, hid):
     (PartialEq::eq over values of two different parameters) or by a length-equality test of
     two different parameters; else the reason."""
     fx = ctx.fx
-    fn = F(fx.fns[hid])
+    fn = F(fx.fns.get(hid) or getattr(fx, 'dropped_helpers', {})[hid])
     argc = fn.r['argc']
 
     def params_of(o):
@@ -688,16 +714,29 @@ def _helper_full_equality(ctx, hid):
         cut |= pos
     if not cut:
         return 'no length comparison and no full equality over both parameters (a zip/fold comparison truncates to the shorter input)'
+    # result locals: the return place and every local copied into it
+    res = {0}
+    grew = True
+    while grew:
+        grew = False
+        for b in fn.g:
+            for st in fn.bbs[b]['s']:
+                if st[0] == 'A' and st[1][0] in res and not st[1][1] and st[2][0] == 'use' and st[2][1][0] in ('c', 'm') and not st[2][1][1][1]:
+                    if st[2][1][1][0] not in res:
+                        res.add(st[2][1][1][0])
+                        grew = True
     for b in fn.g:
         for st in fn.bbs[b]['s']:
-            if st[0] == 'A' and st[1][0] == 0 and not st[1][1]:
+            if st[0] == 'A' and st[1][0] in res and not st[1][1]:
                 rv = st[2]
                 if rv[0] == 'use' and rv[1][0] == 'k' and 'false' in rv[1][2]:
+                    continue
+                if rv[0] == 'use' and rv[1][0] in ('c', 'm') and not rv[1][1][1] and rv[1][1][0] in res:
                     continue
                 if not guarded(fn, b, cut):
                     return 'a possibly-true result at line %d is reachable without passing the length/equality test' % fn.line(b)
         t = fn.term(b)
-        if t['k'] == 'call' and not t['d'][1] and t['d'][0] == 0 and not guarded(fn, b, cut):
+        if t['k'] == 'call' and not t['d'][1] and t['d'][0] in res and not guarded(fn, b, cut):
             return 'a computed result at line %d is reachable without passing the length/equality test' % fn.line(b)
     return None
 
